@@ -12,7 +12,7 @@ import (
 func init() {
 	register(&propInfo{
 		ID:          "C04",
-		Explanation: "Path, origin and call-graph analysis of everything that can cause a handler execution: (R04.1) the client re-sends a request only on a path where the method's retry flag is known true, that flag is exactly `retry tag == \"true\"` (likewise notify), and the retry decision compares the wire error's code with the temporary-connection code; (R04.2) the request writer is only ever given the request just received from the request queue or a locally built id-less built-in notification; (R04.3) nothing reachable from the in-flight failer, the sink closer or the redial path writes a request (in-flight requests are failed, never re-queued); (R04.4) notifications: no id is minted on the notify branch, the accept arm never registers an id-less request, the server gives it a discarding writer and emits no success reply; (R04.5) each inbound frame is dispatched once, and each call is handed to the dispatcher exactly once, on its own goroutine; (R04.6) in the dispatcher the user call has a single site outside any loop and dominates the success reply; (R04.7) the HTTP transport uses a non-replayable request (POST, no idempotency-key header), so net/http never re-sends it by itself; (R04.8) frames are decoded into fresh memory (a recycled buffer would make one handler run with another call's params).",
+		Explanation: "Path, origin and call-graph analysis of everything that can cause a handler execution: (R04.1) the client re-sends a request only on a path where the method's retry flag is known true, that flag is exactly `retry tag == \"true\"` (likewise notify), and the retry decision compares the wire error's code with the temporary-connection code; (R04.2) the request writer is only ever given the request just received from the request queue or a locally built id-less built-in notification; (R04.3) nothing reachable from the in-flight failer, the sink closer or the redial path writes a request (in-flight requests are failed, never re-queued); (R04.4) notifications: no id is minted on the notify branch, the accept arm never registers an id-less request, the server gives it a discarding writer and emits no success reply; (R04.5) each inbound frame is dispatched once, and each call is handed to the dispatcher exactly once, on its own goroutine; (R04.6) in the dispatcher the user call has a single site outside any loop and dominates the success reply; (R04.7) the HTTP transport uses a non-replayable request (POST, no idempotency-key header), so net/http never re-sends it by itself; (R04.8) frames are decoded into fresh memory (a recycled buffer would make one handler run with another call's params). (R04.9) every proxy field gets a call descriptor allocated for it.",
 		NotDecided:  "Executions counted under real faults and schedules; behaviour of intermediaries; net/http internals beyond its documented replay rule.",
 		Assumptions: []string{"net/http replays a request on a dropped keep-alive connection only if it is idempotent (GET/HEAD/OPTIONS/TRACE) or carries an (X-)Idempotency-Key header"},
 		Run:         runC04,
@@ -69,12 +69,35 @@ func (c *Ctx) tagBoolFields() map[string]tagField {
 				}
 			}
 			walk(st.Val, 0)
+			val := st.Val
+			var site *ssa.Call // the flag is computed by a predicate helper: tagSet(f, "retry")
+			if tagCall == nil {
+				if call, ok := st.Val.(*ssa.Call); ok {
+					if g := staticCallee(call); g != nil && c.P.allFns[g] && g.Signature.Results().Len() == 1 {
+						allInstrs(g, func(x ssa.Instruction) {
+							if rt, ok := x.(*ssa.Return); ok && len(rt.Results) == 1 && tagCall == nil {
+								walk(rt.Results[0], 0)
+								if tagCall != nil {
+									val, site = rt.Results[0], call
+								}
+							}
+						})
+					}
+				}
+			}
 			if tagCall == nil {
 				return
 			}
 			name, _ := constString(tagCall.Common().Args[1])
+			if prm, isPrm := tagCall.Common().Args[1].(*ssa.Parameter); isPrm && site != nil {
+				for i, q := range prm.Parent().Params {
+					if q == prm && i < len(site.Common().Args) {
+						name, _ = constString(site.Common().Args[i])
+					}
+				}
+			}
 			tf := tagField{Field: f, Store: st}
-			if bo, ok := st.Val.(*ssa.BinOp); ok && bo.Op == token.EQL && calleeName(tagCall) == "(reflect.StructTag).Get" {
+			if bo, ok := val.(*ssa.BinOp); ok && bo.Op == token.EQL && calleeName(tagCall) == "(reflect.StructTag).Get" {
 				other := bo.Y
 				if bo.Y == ssa.Value(tagCall) {
 					other = bo.X
@@ -336,7 +359,12 @@ func runC04(c *Ctx) {
 	if r.FnDisp != nil {
 		d := r.FnDisp
 		var ucs []ssa.Instruction
-		allInstrs(d, func(in ssa.Instruction) {
+		p.coneInstrs(d, func(in ssa.Instruction) {
+			for _, u := range r.FnUser {
+				if in.Parent() == u {
+					return // the reflective call inside the protected user-call function: its call site counts
+				}
+			}
 			if c.isUserCall(in) {
 				ucs = append(ucs, in)
 			}
@@ -345,13 +373,19 @@ func runC04(c *Ctx) {
 		switch {
 		case len(ucs) != 1:
 			c.bad("R04.6", construct, p.pos(d.Pos()), fmt.Sprintf("%d user-call sites in the dispatcher (expected one)", len(ucs)))
-		case inLoop(ucs[0].Block()):
+		case inLoop(ucs[0].Block()) || (ucs[0].Parent() != d && inLoopIP(ucs[0])):
 			c.bad("R04.6", construct, c.ipos(ucs[0]), "the user call sits in a loop")
 		default:
 			okAll := true
-			allInstrs(d, func(in ssa.Instruction) {
+			p.coneInstrs(d, func(in ssa.Instruction) {
 				if c.isSuccessEmit(in) || c.isChanRegistrarCall(in) {
-					if !mustPrecede(d, func(x ssa.Instruction) bool { return x == ucs[0] }, in) {
+					prec := false
+					if in.Parent() == d && ucs[0].Parent() == d {
+						prec = mustPrecede(d, func(x ssa.Instruction) bool { return x == ucs[0] }, in)
+					} else {
+						prec = mustPrecedeIP(in, func(x ssa.Instruction) bool { return x == ucs[0] }, 0)
+					}
+					if !prec {
 						okAll = false
 						c.bad("R04.6", construct, c.ipos(in), "a success reply can be emitted on a path that did not run the handler")
 					}
@@ -633,6 +667,9 @@ func (c *Ctx) descriptorPerField(rule string) {
 			n++
 			construct := fmt.Sprintf("%s: descriptor behind the installed proxy function", fname(fn))
 			fresh := c.allOrigins(mc.Bindings[0], func(a apath) bool {
+				if isNilConst(a.Root) && len(a.Fields) == 0 {
+					return true // the nil returned next to an error by a constructor helper
+				}
 				al, ok := a.Root.(*ssa.Alloc)
 				return ok && len(a.Fields) == 0 && al.Heap && (al.Parent() == fn || p.inCone(fn, al))
 			})
